@@ -25,6 +25,7 @@ EXPLANATION = (
 EXPLANATION += ' R06.13: mapping keys read off args_with_defaults are names (two subscripts).  R06.14: line/column pairs.'
 EXPLANATION += ' R06.12: the positional part of a rebuilt call is cut short only when no surplus positional arguments follow.'
 EXPLANATION += ' R06.10: a `col_offset`/`end_col_offset` of an AST node (UTF-8 bytes) reaches a character offset only through codeanalyze.column_to_offset; it is otherwise only compared, or is the start column of a node tested to be a statement. R06.11: a function that remembers its answer under a key reads, in the computation of the remembered value, nothing of its parameters that the key does not contain (followed into the helpers it calls).'
+EXPLANATION += " R06.15: the readers of calls and definitions remove exactly the star prefix their test established (the writer puts exactly that prefix back)."
 ASSUMPTIONS = ["alignment rule of the language reference as recorded in sa/grammar.py DEFAULT_ALIGNMENT",
                "a node of the analysed program = anything derived from self.ast / ast.parse(...) inside the parser classes"]
 
@@ -314,6 +315,7 @@ def check(ctx, res) -> None:
     from .common import position_pair_rule
 
     position_pair_rule(ctx, res, "R06.14", ("rope.refactor.occurrences", "rope.refactor.functionutils", "rope.base.evaluate", "rope.refactor.patchedast", "rope.base.codeanalyze"))
+    _star_prefix_symmetry_rule(ctx, res)
 
 
 def _surplus_positionals_rule(ctx, res) -> None:
@@ -383,3 +385,49 @@ def _mapping_key_is_a_name_rule(ctx, res) -> None:
                             "entry of the removed parameter stays; a later changer that adds a parameter of that name picks the stale value up (remove `a`, add a new "
                             "`a=10`: `f(1, 2)` becomes `f(2, 1)`)", function=m.qualname)
     res.floor("R06.13", "mapping keys read off args_with_defaults", n, 2)
+
+
+
+def _star_prefix_symmetry_rule(ctx, res) -> None:
+    """R06.15: the reader of a call / definition takes the trailing `*args` and `**kwds` entries off the argument list and stores them
+    WITHOUT their stars; the writer (`to_string`) puts exactly `"*"` and `"**"` back.  What the reader removes is therefore
+    exactly the prefix its own test established: under `<entry>.startswith(P)` the stored text is `<entry>[len(P):]` (or
+    `removeprefix(P)`).  `lstrip("*")` removes as many stars as there are: a call with two mappings, `f(1, **base, **extra)`,
+    reaches the one-star test with the entry `**base`, and the call comes back as `f(1, *base, **extra)`."""
+    idx = ctx.idx
+    mod = "rope.refactor.functionutils"
+    from .common import _subst_single_locals
+    n = 0
+    for f in sorted(idx.functions.values(), key=lambda f: f.qualname):
+        if f.unit.modname != mod:
+            continue
+        cfg = None
+        for t in walk_local(f.node):
+            if not (isinstance(t, ast.If) and any(isinstance(c, ast.Call) and call_name(c) == "startswith" and c.args and isinstance(c.args[0], ast.Constant)
+                                                    and isinstance(c.args[0].value, str) and set(c.args[0].value) == {"*"} for c in ast.walk(t.test))):
+                continue
+            prefix = next(c.args[0].value for c in ast.walk(t.test) if isinstance(c, ast.Call) and call_name(c) == "startswith" and c.args
+                          and isinstance(c.args[0], ast.Constant) and isinstance(c.args[0].value, str) and set(c.args[0].value) == {"*"})
+            for st in t.body:
+                if not (isinstance(st, ast.Assign) and len(st.targets) == 1):
+                    continue
+                v = st.value
+                ok = None
+                if isinstance(v, ast.Subscript) and isinstance(v.slice, ast.Slice) and v.slice.upper is None and isinstance(v.slice.lower, ast.Constant):
+                    ok = v.slice.lower.value == len(prefix)
+                    how = f"[{v.slice.lower.value}:]"
+                elif isinstance(v, ast.Call) and isinstance(v.func, ast.Attribute) and v.func.attr == "removeprefix" and v.args and isinstance(v.args[0], ast.Constant):
+                    ok = v.args[0].value == prefix
+                    how = f"removeprefix({v.args[0].value!r})"
+                elif isinstance(v, ast.Call) and isinstance(v.func, ast.Attribute) and v.func.attr in ("lstrip", "strip"):
+                    ok = False
+                    how = f"{v.func.attr}({ast.unparse(v.args[0]) if v.args else ''})"
+                if ok is None:
+                    continue
+                n += 1
+                res.add("R06.15", f"{f.qualname.split('.', 3)[-1]}|stars-removed-as-tested:{prefix}#{n}", ok, f"{f.unit.rel}:{st.lineno}",
+                        f"under startswith({prefix!r}) exactly {len(prefix)} character(s) are removed" if ok else
+                        f"under `startswith({prefix!r})` the entry is stored as `{ast.unparse(v)[:50]}` ({how}): that does not remove exactly the {len(prefix)} star(s) the test "
+                        "established -- the second mapping of `f(1, **base, **extra)` reaches the one-star test as `**base`, is stored as `base`, and the writer puts ONE star "
+                        "back: `f(1, *base, **extra)` passes the keys positionally", function=f.qualname)
+    res.floor("R06.15", "star prefixes removed by the readers of calls and definitions", n, 2)
